@@ -16,14 +16,22 @@ RULE = ("exhaustive: every non-empty directed graph (self-loops, antiparallel ed
         "with weights drawn from a palette of special doubles; random: up to 14 nodes (thorough: up to 60) with ids up to "
         "10^18, edges inserted in random order through add_edge, overwritten edges (add_edge twice with another weight), "
         "isolated nodes through add_node, weights from random finite 64-bit patterns, negative, subnormal, huge, -0.0, "
-        "integer-valued, 0.1, 1/3, equal weights; Unicode metadata and names (also empty names, separators # : , { }). "
-        "Per case: (a) model-parse(impl.write(i)) = content of i, by readlines and by splitlines; (b) impl.parse_file and "
-        "impl.parse_str of impl.write(i) = i: edges() with bitwise weights, outgoing_edges/neighbours of incident nodes, "
-        "incident node set, names, num_alternatives, num_edges = |edges|, num_voters = num_alternatives; (c) "
-        "impl.write(impl.parse(impl.write(i))) byte-identical; (d) impl.parse(model-write(i)) = i; (e) model-write(i) vs "
-        "impl.write(i) byte for byte (recorded in the distribution; a difference alone is not a violation because the "
-        "property does not prescribe the bytes of the first file); (f) the hypotheses H_* of the theorems on every "
-        "generated weight token; (g) header_only on both sides. non-trivial = >= 2 edges and a non-integer weight")
+        "integer-valued, 0.1, 1/3, equal weights, and (20 % of all weights) values whose repr uses exponent notation "
+        "(1e+16, -3.75e+300, 1.7976931348623157e+308, 5e-324, 1e-07, 9999999999999998.0, 1e22, integers-as-floats >= "
+        "1e16, powers of two up to 2^1023); Unicode metadata and names (also empty names, separators # : , { }). "
+        "HISTORY cases (one third of the random cases + small graphs): the object is observed through edges() / "
+        "outgoing_edges() / neighbours() and written once, then weights of existing edges are overwritten with add_edge "
+        "(no new neighbour), new edges / nodes are added and the SAME object is the instance under test; or the first "
+        "file is parsed into a new object, that object is written again (must be byte-identical), modified and then "
+        "tested. Per case: (h) edges()/nodes() of the instance under test = the model's add_node/add_edge semantics "
+        "applied to the whole call history (weights compared as repr tokens); (a) model-parse(impl.write(i)) = content "
+        "of i, by readlines and by splitlines; (b) impl.parse_file and impl.parse_str of impl.write(i) = i: edges() with "
+        "bitwise weights, outgoing_edges/neighbours of incident nodes, incident node set, names, num_alternatives, "
+        "num_edges = |edges|, num_voters = num_alternatives; (c) impl.write(impl.parse(impl.write(i))) byte-identical; "
+        "(d) impl.parse(model-write(i)) = i; (e) model-write(i) vs impl.write(i) byte for byte (recorded in the "
+        "distribution; a difference alone is not a violation because the property does not prescribe the bytes of the "
+        "first file); (f) the codec hypotheses of the theorems on every generated weight token; (g) header_only on both "
+        "sides. non-trivial = >= 2 edges and a non-integer weight")
 EXHAUSTIVE = {"quick": "all 527 non-empty digraphs on {1}, {1,2}, {1,2,3} (one weight palette)",
               "thorough": "all non-empty digraphs on {1}, {1,2}, {1,2,3} x 3 weight palettes x 2 insertion orders"}
 TRUSTED = ["C09 theorems are stated for an abstract weight type W with Section hypotheses on the codec show_w = "
@@ -240,6 +248,7 @@ def generate(tier, seed):
         alts = [(n, rand_text(rng) if rng.random() < 0.7 else "Alternative %d" % n) for n in named]
         out.append(mk_case(default_meta(rng), rng.choice([0, len(nodes), rng.randint(0, 99)]), alts, ops, ops2, mode,
                            rnd=1))
+    out.extend(fidelity_cases(rng, 150 if tier == "quick" else 1500))
     # ---- small history cases: every edge of a small graph overwritten after the first write
     for k in (1, 2, 3):
         pairs = [(a, b) for a in range(1, k + 1) for b in range(1, k + 1)]
@@ -251,6 +260,57 @@ def generate(tier, seed):
                 ops2 += [[1, a, b, rand_weight_bits(rng)] for a, b in pairs if (a, b) not in es and rng.random() < 0.3]
                 alts = [(n, "Alt %d" % n) for n in nodes_of_ops(ops + ops2)]
                 out.append(mk_case(default_meta(), 0, alts, ops, ops2, mode, hist=1, k=k))
+    return out
+
+
+# ------------------------------------------------------------------------------------------------ hand-made files
+# Fidelity of the parser model outside the round trip (it is reused by C10): the same text goes to
+# MatchingInstance.parse_file / parse_str and to the model's wmd_parse.  Agreement is RECORDED in the distribution
+# ("parser fidelity: ..."); a disagreement here is not a C09 violation (the property is about written files only).
+def fidelity_cases(rng, n):
+    out = []
+    for i in range(n):
+        k = rng.randint(1, 4)
+        names = [rng.choice(["a", "b", "a", "x y", "", "n__1", "a__1"]) for _ in range(k)]
+        hdr = ["# FILE NAME: f.wmd", "# TITLE: t", "# DESCRIPTION:", "# DATA TYPE: wmd", "# MODIFICATION TYPE: original",
+               "# RELATES TO:", "# RELATED FILES:", "# PUBLICATION DATE: 2020", "# MODIFICATION DATE: 2021",
+               "# NUMBER ALTERNATIVES: %d" % k, "# NUMBER EDGES: %d" % rng.randint(0, 9)]
+        hdr += ["# ALTERNATIVE NAME %d: %s" % (j + 1, nm) for j, nm in enumerate(names)]
+        if rng.random() < 0.2:
+            hdr.insert(rng.randint(0, len(hdr)), rng.choice(["# NUMBER VOTERS: 5", "# SOMETHING ELSE: 1", "#", "# NUMBER EDGES: x",
+                                                             "# NUMBER ALTERNATIVES: 2 3", "# ALTERNATIVE NAME x: y",
+                                                             "# NUMBER EDGES:7", "# ALTERNATIVE NAME 2:z"]))
+        edges = []
+        for _ in range(rng.randint(0, 5)):
+            a, b = rng.randint(1, k), rng.randint(1, k)
+            w = repr(f_of_bits(rand_weight_bits(rng)))
+            style = rng.random()
+            if style < 0.5:
+                edges.append("%d, %d, %s" % (a, b, w))
+            elif style < 0.6:
+                edges.append("  %d ,%d,   %s  " % (a, b, w))
+            elif style < 0.68:
+                edges.append("%d,\t%d, %s" % (a, b, w))
+            elif style < 0.74:
+                edges.append("%d, %d" % (a, b))
+            elif style < 0.8:
+                edges.append("%d, %d, %s, 1" % (a, b, w))
+            elif style < 0.85:
+                edges.append("%d, x%d, %s" % (a, b, w))
+            elif style < 0.9:
+                edges.append("%d, %d, " % (a, b))
+            elif style < 0.95:
+                edges.append("")
+            else:
+                edges.append("0%d, %d, %s" % (a, b, w))
+        lines = hdr + edges
+        pad = rng.random()
+        if pad < 0.2:
+            lines = [rng.choice(["", " ", "\t"]) + l + rng.choice(["", " ", "  "]) for l in lines]
+        eol = rng.choice(["\n", "\n", "\r\n", "\r"])
+        text = eol.join(lines) + (eol if rng.random() < 0.8 else "")
+        out.append(case("c09.parse", [int(rng.random() < 0.4), int(rng.random() < 0.3), i % 2, proto.text(text)],
+                        fidelity=1))
     return out
 
 
@@ -396,7 +456,28 @@ def _guard_obs(fn, *a, **kw):
     return {"err": r[1:]}, None
 
 
+def impl_fidelity(c):
+    ac, ho, splitter, text = c["payload"]
+    text = proto.untext(text)
+    p = _scratch()
+    try:
+        if splitter == 0:
+            with open(p, "w", encoding="utf-8", newline="") as f:
+                f.write(text)
+            r, _ = _guard_obs(_parse_file, p, autocorrect=bool(ac), header_only=bool(ho))
+        else:
+            r, _ = _guard_obs(_parse_str, text, autocorrect=bool(ac), header_only=bool(ho))
+        return {"fidelity": r, "fname": os.path.basename(p) if splitter == 0 else ""}
+    finally:
+        try:
+            os.remove(p)
+        except OSError:
+            pass
+
+
 def impl(c):
+    if c["op"] == "c09.parse":
+        return impl_fidelity(c)
     paths = []
     try:
         hist = {"paths": paths}
@@ -446,6 +527,10 @@ def impl(c):
 
 # ------------------------------------------------------------------------------------------------ model side
 def oracle_requests(c, r):
+    if c["op"] == "c09.parse":
+        ac, ho, splitter, text = c["payload"]
+        fname = r.get("fname", "") if isinstance(r, dict) else ""
+        return [("c09.parse", [ac, ho, proto.text("wmd"), proto.text(fname), splitter, text])]
     if not isinstance(r, dict) or "text1" not in r:
         return []
     fname = proto.text("parsed.wmd")
@@ -522,7 +607,32 @@ def model_same_as_original(mc, b, what):
     return None
 
 
+def fidelity_verdict(c, r, mres):
+    """'agree' or a description of the disagreement between MatchingInstance.parse_* and the model's wmd_parse"""
+    if not isinstance(r, dict) or "fidelity" not in r:
+        return "implementation side returned %r" % (r,)
+    f, m = r["fidelity"], mres[0]
+    if "err" in f:
+        return "agree" if (m[0] == 1 and [m[1]] == f["err"][:1]) else "impl raises %r, model %r" % (f["err"], m[:2])
+    if m[0] != 0:
+        return "impl parses, model error %r" % (m[1],)
+    o, mc = f["ok"], model_content(m[1])
+    try:
+        m_edges = sorted([a, b, bits_of_f(float(t))] for a, b, t in mc["edges"])
+    except (ValueError, TypeError):
+        return "model keeps a token that is not a float"
+    for key, x, y in (("edges", o["edges"], m_edges), ("nodes", o["nodes"], mc["nodes"]), ("names", o["names"], mc["names"]),
+                      ("num_alternatives", o["num_alternatives"], mc["num_alternatives"]),
+                      ("num_voters", o["num_voters"], mc["num_voters"]), ("num_edges", o["num_edges"], mc["num_edges"]),
+                      ("metadata", o["meta"], mc["meta"])):
+        if x != y:
+            return "%s: impl %r, model %r" % (key, x, y)
+    return "agree"
+
+
 def judge(c, r, mres):
+    if c["op"] == "c09.parse":
+        return None                     # recorded by stats(), see fidelity_cases
     if not isinstance(r, dict) or "text1" not in r:
         return {"kind": "exception", "reason": "implementation side returned %r" % (r,)}
     if r["hyp"]:
@@ -613,6 +723,8 @@ def judge(c, r, mres):
 
 
 def nontrivial(c, r, m):
+    if c["op"] == "c09.parse":
+        return False
     b = r["before"]
     return len(b["edges"]) >= 2 and any(f_of_bits(w) != int(f_of_bits(w)) for _, _, w in b["edges"]
                                         if abs(f_of_bits(w)) < 1e300)
@@ -623,6 +735,11 @@ def _bucket(n):
 
 
 def stats(c, r, m):
+    if c["op"] == "c09.parse":
+        v = fidelity_verdict(c, r, m)
+        kind = "raises" if "err" in r.get("fidelity", {}) else "parses"
+        return ["parser fidelity on hand-made files (%s): %s" % (kind, "agree" if v == "agree" else "DISAGREE")] + \
+               ([] if v == "agree" else ["parser fidelity DISAGREE: " + v[:160]])
     b = r["before"]
     pl = unpack(c["payload"])
     ops = pl[3] + pl[4]
@@ -681,6 +798,10 @@ def _calls(ops):
 
 
 def describe(c):
+    if c["op"] == "c09.parse":
+        ac, ho, splitter, text = c["payload"]
+        return {"autocorrect": ac, "header_only": ho, "entry": "parse_file" if splitter == 0 else "parse_str",
+                "text": proto.untext(text)}
     meta, nv, alts, ops, ops2, mode = unpack(c["payload"])
     d = {"metadata": dict(zip(META_FIELDS, (proto.untext(t) for t in meta))), "num_voters_before": nv,
          "alternatives_name": [[a, proto.untext(nm)] for a, nm in alts], "calls": _calls(ops)}
@@ -693,6 +814,8 @@ def describe(c):
 
 
 def shrink(c):
+    if c["op"] == "c09.parse":
+        return
     meta, nv, alts, ops, h_ops, mode = unpack(c["payload"])
 
     def rebuild(ops_new, alts2=None, meta2=None, h2=None):
